@@ -5,6 +5,8 @@ import (
 	"go/token"
 	"go/types"
 	"strings"
+
+	"golang.org/x/tools/go/cfg"
 )
 
 func init() {
@@ -225,6 +227,51 @@ func runC36(c *Ctx) {
 			}
 			c.Check(good, rule3, f.Key+": "+exprStr(call.Fun)+"#err-checked", as.Pos(), m, "error checked before use", "result of "+exprStr(call.Fun)+" is used without an immediate error check")
 		}
+	}
+	// the index walk descends on every element: a miss must never keep the parent entry
+	if f := c.NeedFunc(m, "sr.Serde.decodeFind"); f != nil {
+		g := f.Graph()
+		nLoops := 0
+		ast.Inspect(f.Decl.Body, func(x ast.Node) bool {
+			rs, ok := x.(*ast.RangeStmt)
+			if !ok || exprStr(rs.X) != "index" || rs.Value == nil {
+				return true
+			}
+			nLoops++
+			idx := exprStr(rs.Value)
+			var head, done *cfg.Block
+			for _, b := range g.C.Blocks {
+				if b.Stmt == ast.Stmt(rs) {
+					switch b.Kind {
+					case cfg.KindRangeLoop:
+						head = b
+					case cfg.KindRangeDone:
+						done = b
+					}
+				}
+			}
+			if head == nil || len(head.Succs) == 0 {
+				c.Undecided("sr-decode-find", f.Key+"#index-walk", rs.Pos(), m, "loop blocks not found")
+				return true
+			}
+			body := head.Succs[0]
+			_, skip := g.FindPath(Loc{int(body.Index), -1}, SearchOpts{
+				Stop: func(n ast.Node) bool {
+					as, ok := n.(*ast.AssignStmt)
+					return ok && len(as.Lhs) == 1 && exprStr(as.Lhs[0]) == "t" && nosp(exprStr(as.Rhs[0])) == "t.subindex["+idx+"]"
+				},
+				GoalBlock: func(b *cfg.Block) bool { return b == head || b == done },
+				GoalExit: func(k ExitKind, last ast.Node) bool {
+					if r, ok := last.(*ast.ReturnStmt); ok && len(r.Results) == 3 && exprStr(r.Results[2]) == "ErrNotRegistered" {
+						return false
+					}
+					return k != ExitPanic
+				},
+			})
+			c.Check(!skip, "sr-decode-find", f.Key+"#index-walk", rs.Pos(), m, "every index element descends (t = t.subindex[idx]) or rejects", "the index walk can stop or continue without descending: an unregistered path under a registered prefix is decoded with the prefix's decoder")
+			return true
+		})
+		c.Check(nLoops == 1, "sr-decode-find", f.Key+"#index-walk-exists", f.Pos(), m, "", "index walk loop not found")
 	}
 	for _, key := range []string{"sr.Serde.Decode", "sr.Serde.DecodeNew"} {
 		f := c.NeedFunc(m, key)
